@@ -126,7 +126,7 @@ pub fn run(tier: Tier, seed: u64) -> i32 {
         "metamorphic oracle only: the tables themselves are not compared with an external copy of PeSTO".into(),
         "bound 50 000 = half the mate score; largest material constructible with nine queens a side evaluates near 1.4*10^4".into(),
     ];
-    let random_jobs = tier.pick(64usize, 512);
+    let random_jobs = tier.pick(256usize, 4096);
     let basis_jobs = 12 * 64;
     let results = par::par_map(basis_jobs + random_jobs + 1, |j| {
         let mut acc = Acc::new();
